@@ -2,7 +2,7 @@
 # Run every claimed quick check on /repo's current tree; non-zero exit if any check does not exit 0.
 cd /verif || exit 2
 rc=0
-for id in C01 C02 C03 C04 C05 C08 C09 C10 C11 C12 C13 C14 C15 C16 C17 C18 C19; do
+for id in C01 C02 C03 C04 C05 C06 C07 C08 C09 C10 C11 C12 C13 C14 C15 C16 C17 C18 C19; do
   out=$(/venv/bin/python bin/check.py $id ${1:+--tier $1} 2>&1); e=$?
   echo "$out" | grep -E "^(C[0-9]+:|VIOLATION|ANALYSIS-ERROR)" | cut -c1-220
   [ $e -ne 0 ] && rc=1
